@@ -47,7 +47,7 @@ class C05(Check):
         "Datastore.buckets(), Bucket.metadata() and the event listing are compared with a dict model; non-trivial = a "
         "bucket holding events was deleted or a missing-bucket operation was issued; distinct = (backend, op-kind sequence)"
     )
-    expected_probes = ["delete_with_events", "recreate_after_delete", "update_live", "missing_lookup", "missing_describe", "missing_update", "missing_delete", "stale_handle_describe", "restart_clean", "new_datastore", "name_omitted", "data_given", "event_observation_deferred", "other_store_in_same_process", "read_through_stale_handle"]
+    expected_probes = ["delete_with_events", "recreate_after_delete", "update_live", "missing_lookup", "missing_describe", "missing_update", "missing_delete", "stale_handle_describe", "restart_clean", "new_datastore", "name_omitted", "data_given", "event_observation_deferred", "other_store_in_same_process", "read_through_stale_handle", "no_lookup_by_harness"]
     assumptions = ["duplicate creation of a live id is not generated (the property is silent about it)", "update fields are non-empty strings / non-empty dicts (the property's quantifier)"]
 
     def gen(self, seed, idx, tier):
@@ -88,7 +88,7 @@ class C05(Check):
     def fresh_store_not_empty(self, world):
         raise Violation("listing", "a freshly created store already lists buckets %s that were never created in it" % sorted(world.view), {"op": "start"})
 
-    def _cmp_listing(self, world, op):
+    def _cmp_listing(self, world, op, handles=True):
         try:
             listing = world.ds.buckets()
         except Exception as e:
@@ -101,6 +101,8 @@ class C05(Check):
                 if got.get(k) != v:
                     tag = "update_only_supplied" if op == "update" else "listing"
                     raise Violation(tag, "after %s bucket %r is listed with %s=%s, expected %s" % (op, b, k, short(got.get(k)), short(v)), {"op": op})
+            if not handles:
+                continue  # hands-off run: the harness looks no bucket up, so the store's handle registry is the client's doing alone
             try:
                 md = meta_canon(world.ds[b].metadata())
             except Exception as e:
@@ -211,8 +213,12 @@ class C05(Check):
                 raise Violation("listing", "a newly created store object already lists buckets %s (state shared with another store)" % sorted(out["ret"]), {"op": op})
         # the whole map, after every step (missing-bucket operations change nothing)
         try:
-            self._cmp_listing(world, op)
-            if self._k == 1 or i % self._k == 0 or op in ("restart_clean", "new_datastore"):
+            hands_off = self._k == 9
+            full = self._k == 1 or i % self._k == 0 or (not hands_off and op in ("restart_clean", "new_datastore"))
+            self._cmp_listing(world, op, handles=full or not hands_off)
+            if not (full or not hands_off):
+                world.probes["no_lookup_by_harness"] += 1
+            if full:
                 self._cmp_counts(world, op)
             else:
                 # deferred observation: no event read (it would flush the lazily-committing store); only keep the
